@@ -162,6 +162,19 @@ PROPS["C07"] = {
         "level_note": "Trusted: Lean kernel + {propext, Classical.choice, Quot.sound}; Mathlib's definitions of Int.land/lor/xor/ldiff/testBit, Nat.size; the u64 intrinsics leading_zeros/trailing_zeros/trailing_ones/count_ones and the digit operators are modelled (NB.C07.lzDigit/tzDigit/toDigit/popDigit, Nat bit ops on digits < 2^64); shift amounts are modelled by their mathematical value with usize/u64 range 2^64; right-shift theorems assume the operand's bit length fits u64 (true of every Vec); Vec/ownership not modelled; correspondence strength bounded by the generators.",
     }
 
+PROPS["C14"] = {
+    "lean": ["NB.Props.C14"],
+    "gens": ["c14"],
+    "profiles": ["release", "debug"],
+    "trusted": ["the per-operation outcome theorems of the other properties (imported by NB.Props.C14)",
+                "process-level observation of faults/timeouts by the harness runner (signals, watchdog)"],
+    "assumptions": COMMON_ASSUME + ["operands whose results do not fit in memory are out of scope (capacity class)"],
+    "level": "proof",
+    "level_text": "placeholder",
+    "level_note": "placeholder",
+    "claimed": False,
+}
+
 NOT_CLAIMED = {}
 
 if __name__ == "__main__":
